@@ -3,11 +3,13 @@ import itertools
 from harness.props.common import *
 
 THEOREM_NOTE = ("Props/C11.lean: width, conservation of non-blank characters in order, line-break structure, no empty wrap line, "
-                "blank source line, refusal of width <= 0, termination of the wrap loop - for every CharClass, text and width >= 1")
+                "blank source line, refusal of width <= 0, termination of the wrap loop - for every CharClass, text and width >= 1"
+                ' Props/C11b.lean: textwrap.wrap as modelled equals an independently defined greedy packing of its chunks; no word lost or repeated; true maximality.')
 ASSUMPTIONS = ASSUME_PY
 RULE = ("exhaustive strings over {a,b,-,space,tab,newline} up to length 5 (quick) / 6 (thorough) x widths 1..5, plus seeded random "
         "texts (len<=40 quick, <=300 thorough; widths -1..120) over words, hyphens, em-dashes, tabs, \\r \\x0b \\x0c, non-ASCII blanks and "
-        "letters, exact-width lines before newlines; a case is non-trivial if the rendering has >= 2 lines or raises")
+        "letters, exact-width lines before newlines; a case is non-trivial if the rendering has >= 2 lines or raises"
+        ' Later rounds: text widgets rendered by unnumbered lists / windows - what the widget itself shows afterwards (aliasing); structure check of the rendering modules with a two-thread render race as failing-input search.')
 
 ALPH = "ab- \t\n\r1.é\xa0\x0b\x0c\x1c　\x85—'\"?!_"
 WORDS = ["a", "bb", "ccc", "dddd", "eeeee", "well-known", "x" * 9, "mother-in-law", "foo--bar", "a—b", "1-2", "e.g.", "é", "ß", "\xa0", "--", "-"]
